@@ -13,7 +13,7 @@ Import RecordSetNotations.
 Inductive spc :=
 | SAccept                (* in ln.Accept() *)
 | SHave (c : Z)          (* accepted connection c, testShouldExit pending *)
-| SPush (c : Z)          (* in accept(): s.backlog <- endpoint (may block) *)
+| SPush (c : Z)          (* in accept(): select { s.backlog <- endpoint | <-s.done } *)
 | SDone                  (* returning, deferred wg.Done pending *)
 | SExited.
 
@@ -34,7 +34,7 @@ Record lst := mklst {
   lcloser : option lpc;        (* None: Close not called yet *)
   lpanic : bool;
   handed : list Z;             (* ghost: connections handed to the backlog channel, in order *)
-  dropped : list Z;            (* ghost: accepted but dropped because shutdown had begun *)
+  dropped : list Z;            (* ghost: accepted but dropped (closed) because shutdown had begun *)
   refused : list Z             (* ghost: dials refused because the listener was closed *)
 }.
 
@@ -42,7 +42,8 @@ Record lst := mklst {
   <lclosed; dialq; serve; sdone; swg; backlog; bcap; bclosed; eclosed; lcloser; lpanic; handed; dropped; refused>.
 
 Inductive lchoice :=
-| LServe (i : nat)             (* the next step of serve goroutine i *)
+| LServe (i : nat)             (* the next step of serve goroutine i (at the select: the hand-over) *)
+| LServeDone (i : nat)         (* serve goroutine i, at the select in accept(): the <-s.done case *)
 | LClose                       (* the next step of Close(); the first one starts it *)
 | LDial (i : nat) (c : Z)      (* a client connects to listener i *)
 | LTake.                       (* the application takes an endpoint from the backlog channel *)
@@ -77,6 +78,13 @@ Definition lstep (s : lst) (c : lchoice) : option lst :=
           | SExited => None
           end
       | _, _, _ => None
+      end
+  | LServeDone i =>
+      match nth_error (serve s) i with
+      | Some (SPush c) =>
+          if sdone s then Some (s <| dropped := dropped s ++ [c] |> <| serve := upd (serve s) i SAccept |>)
+          else None
+      | _ => None
       end
   | LClose =>
       match lcloser s with
